@@ -391,6 +391,14 @@ func (rm *ResponseManager) finishTask(task *peertask.Task, p peer.ID, err error)
 	}
 	if _, ok := err.(hooks.ErrPaused); ok {
 		response.state = graphsync.Paused
+		// updates that arrived after the executor stopped but before the pause was recorded here were
+		// queued for the executor, which is gone: handle them as updates to a paused response, otherwise
+		// an update that asks to unpause (e.g. sent in reply to the RequestPaused status) is lost
+		updates := response.updates
+		response.updates = nil
+		for _, update := range updates {
+			rm.processUpdate(rm.ctx, requestID, update)
+		}
 		return
 	}
 	log.Infow("graphsync response processing complete (messages stil sending)", "request id", requestID.String(), "peer", p, "total time", time.Since(response.startTime))
